@@ -71,5 +71,25 @@ CLAIMS["C07"] = {
     "technique": "dispatch totality against the library model + specialisation of result construction and rendering",
     "ref": "DESIGN.md section 5 C07",
 }
+CLAIMS["C14"] = {
+    "text": "Decides the full configuration product statically: the two reconciliation loops of enter_funcdef are specialised "
+            "over {hint absent/present} x {docstring type absent/equal/different} x 2 preferences x 2 warning settings "
+            "(48 cells) and the extracted decision (log a warning / take the docstring type / append a missing result) is "
+            "compared with the reference table of the property; the forward slice of the warning option reaches only "
+            "blocks that build a message and log; the preference is read only as an enum comparison inside the two "
+            "reconciliation conditions; option parsing and argparse wiring are consistent. For every signature, not a sample.",
+    "note": TRUST + "Equality of types in `code_type != doc_type` is C19's equality.",
+    "technique": "truth-table extraction by specialisation + forward slices of the two options",
+    "ref": "DESIGN.md section 5 C14",
+}
+CLAIMS["C15"] = {
+    "text": "Decides for all package trees: the discovery loop of get_api, specialised over path-segment lists (test/tests/docs "
+            "at any depth, __init__ files, ten look-alike names) and the flag, skips exactly the files below a segment equal "
+            "to test, tests or docs and only without the flag; discovery is the recursive **/*.py enumeration; the flag is "
+            "read nowhere else (forward slice across all modules); only trees whose path is in the filtered lists are walked.",
+    "note": TRUST + "What griffe loads for docstrings is not decided (it contributes no declarations).",
+    "technique": "specialisation of the file filter over segment lists + forward slice of the flag",
+    "ref": "DESIGN.md section 5 C15",
+}
 
 NOT_APPLICABLE = {}
